@@ -73,8 +73,10 @@ def gen_rowrecs(rng, spec, max_records=6, null_p=0.2):
     n = rng.randint(0, max_records) if rk else 1
     seen = set()
     out = []
+    # with two record keys the leading one alone need not identify a record (then it is drawn from a small range)
+    shared_lead = len(rk) >= 2 and rng.random() < 0.5
     for i in range(n):
-        key = tuple((i if k == "id" else rng.choice(["g1", "g2"])) for k in rk)
+        key = tuple(((rng.choice([0, 1, 2]) if shared_lead else i) if k == "id" else rng.choice(["g1", "g2", "g3"])) for k in rk)
         if key in seen:
             continue
         seen.add(key)
